@@ -4,8 +4,12 @@
   C18_parse     get_cursor_position on  pre ++ CSI ++ digits ++ ";" ++ digits ++ "R" ++ post  (characters interleaved
                 with any number of failing reads): returns (row-1, col-1), hands exactly `pre` to the callback
                 (ValueError when there is none and pre is non-empty), leaves exactly `post` unread.
-  C18_first_match   the scanner model is the incremental regex search: it stops at the first character that
-                completes a report-shaped substring, and until then `resp = extra ++ cand` (lemma `scanAll_pre`).
+  C18_first_match   about the SCANNER MODEL: it stops at the first character that completes a report-shaped substring,
+                never earlier, and until then `resp = extra ++ cand`.  That this is what the incremental `re.search`
+                does is NOT a theorem: it rests on the prose argument in Model/Window.lean and on the correspondence
+                check (every `pre` up to length 4/5 over the alphabet that partitions the regex's classes).
+  C18_error_recovers / C18_error_then_ok   the failure path of get_cursor_vertical_diff (try/finally): a raising query
+                leaves the re-entrancy flag clear, and the next call accounts normally.
   C18_decimal   the ASCII decimal digits of n (what a terminal's report contains) are digits and have value n.
   C18_conserve  _get_cursor_vertical_diff_once: (change of top_usable_row) + returned = row - last known row;
                 nothing changes when no row was known.  C18_once_exact gives the closed form of the two clamped loops.
@@ -461,11 +465,17 @@ theorem C18_once_exact (win : CAWin) (row last : Int) (hl : win.lastCursorRow = 
       · have : ¬ win.top > 1 := by omega
         simp only [if_neg h3, if_neg this]; (repeat' constructor) <;> omega
 
-/-! ### nested calls -/
+/-! ### nested calls and failing queries -/
+
+/-- the row a round reports (0 for a failing query; only used for rounds known to report) -/
+def Window.Round.rowD (rd : Round) : Int :=
+  match rd.outcome with
+  | .row r => r
+  | .raises _ => 0
 
 /-- a call arriving while a query is in progress returns 0 at once, reads nothing and only raises the flag -/
 theorem C18_nested_zero (win : CAWin) (rounds : List Round) (h : win.inDiff = true) :
-    cursorVerticalDiff win rounds = some ({ win with anotherSigwinch := true }, 0, rounds) := by
+    cursorVerticalDiff win rounds = some ({ win with anotherSigwinch := true }, .ok 0, rounds) := by
   simp [cursorVerticalDiff, h, nestedCall]
 
 private theorem nestedCalls_eq (n : Nat) (win : CAWin) :
@@ -479,89 +489,172 @@ private theorem diffOnce_flags (win : CAWin) (row : Int) :
   unfold diffOnce
   cases win.lastCursorRow <;> simp
 
-private theorem diffLoop_spec (acc : Int) (win : CAWin) (rounds : List Round) (win' : CAWin) (ret : Int)
-    (rest : List Round) (h : diffLoop acc win rounds = some (win', ret, rest)) :
-    ∃ used : List Round, ∃ final : Round, rounds = used ++ final :: rest ∧ (∀ rd ∈ used, rd.nested > 0) ∧
-      final.nested = 0 ∧ win'.inDiff = false ∧ win'.anotherSigwinch = false ∧ win'.lastCursorRow = some final.row ∧
-      (win'.top - win.top) + (ret - acc) =
-        final.row - win.lastCursorRow.getD ((used ++ [final]).head (by simp)).row := by
+private theorem diffLoop_cons_row (acc : Int) (win : CAWin) (rd : Round) (rest : List Round) (r : Int)
+    (h : rd.outcome = .row r) :
+    diffLoop acc win (rd :: rest) =
+      let w1 : CAWin := { win with inDiff := true, anotherSigwinch := decide (rd.nested > 0) }
+      if !(diffOnce w1 r).1.anotherSigwinch then
+        some ({ (diffOnce w1 r).1 with inDiff := false }, .ok (acc + (diffOnce w1 r).2), rest)
+      else diffLoop (acc + (diffOnce w1 r).2) { (diffOnce w1 r).1 with inDiff := false } rest := by
+  rw [diffLoop]
+  simp only [nestedCalls_eq, Bool.false_or, h]
+
+private theorem diffLoop_cons_raises (acc : Int) (win : CAWin) (rd : Round) (rest : List Round) (e : PyErr)
+    (h : rd.outcome = .raises e) :
+    diffLoop acc win (rd :: rest) =
+      some ({ win with inDiff := false, anotherSigwinch := decide (rd.nested > 0) }, .error e, rest) := by
+  rw [diffLoop]
+  simp only [nestedCalls_eq, Bool.false_or, h]
+
+/-- what one pass over the script does, for both ways it can end -/
+private theorem diffLoop_spec (acc : Int) (win : CAWin) (rounds : List Round) (win' : CAWin)
+    (res : Except PyErr Int) (rest : List Round) (h : diffLoop acc win rounds = some (win', res, rest)) :
+    ∃ used : List Round, ∃ final : Round, rounds = used ++ final :: rest ∧
+      (∀ rd ∈ used, rd.nested > 0 ∧ ∃ r, rd.outcome = .row r) ∧ win'.inDiff = false ∧
+      (∀ ret, res = .ok ret → final.nested = 0 ∧ (∃ r, final.outcome = .row r) ∧ win'.anotherSigwinch = false ∧
+          win'.lastCursorRow = some final.rowD ∧
+          (win'.top - win.top) + (ret - acc) =
+            final.rowD - win.lastCursorRow.getD ((used ++ [final]).head (by simp)).rowD) ∧
+      (∀ e, res = .error e → final.outcome = .raises e ∧
+          (used = [] → win'.top = win.top ∧ win'.lastCursorRow = win.lastCursorRow)) := by
   induction rounds generalizing acc win with
   | nil => simp [diffLoop] at h
   | cons rd rds ih =>
-    unfold diffLoop at h
-    simp only [nestedCalls_eq, Bool.false_or] at h
-    generalize hw : ({ win with inDiff := true, anotherSigwinch := decide (rd.nested > 0) } : CAWin) = w1 at h
-    have hc := C18_conserve w1 rd.row
-    have hf := diffOnce_flags w1 rd.row
-    have ht : w1.top = win.top := by rw [← hw]
-    have hl : w1.lastCursorRow = win.lastCursorRow := by rw [← hw]
-    have ha : w1.anotherSigwinch = decide (rd.nested > 0) := by rw [← hw]
-    by_cases hn : rd.nested > 0
-    · -- disturbed: query again
-      have hb : (!(diffOnce w1 rd.row).1.anotherSigwinch) = false := by rw [hf.2, ha]; simp [hn]
-      simp only [hb] at h
-      obtain ⟨used, final, e1, e2, e3, e4, e5, e6, e7⟩ := ih _ _ h
-      refine ⟨rd :: used, final, by rw [e1]; rfl, ?_, e3, e4, e5, e6, ?_⟩
-      · intro x hx
-        rcases List.mem_cons.mp hx with hx | hx
-        · subst hx; exact hn
-        · exact e2 x hx
-      · simp only [hc.1, Option.getD_some] at e7
-        simp only [List.cons_append, List.head_cons]
-        rw [hl] at hc
-        cases hwl : win.lastCursorRow with
-        | none => rw [hwl] at hc; simp only [Option.getD_none]; have := hc.2; omega
-        | some last => rw [hwl] at hc; simp only [Option.getD_some]; have := hc.2; omega
-    · have hb : (!(diffOnce w1 rd.row).1.anotherSigwinch) = true := by rw [hf.2, ha]; simp [hn]
-      simp only [hb, if_true, Option.some.injEq, Prod.mk.injEq] at h
+    cases ho : rd.outcome with
+    | raises e =>
+      rw [diffLoop_cons_raises acc win rd rds e ho] at h
+      simp only [Option.some.injEq, Prod.mk.injEq] at h
       obtain ⟨e1, e2, e3⟩ := h
       subst e1 e2 e3
-      refine ⟨[], rd, rfl, by simp, by omega, rfl, ?_, hc.1, ?_⟩
-      · show (diffOnce w1 rd.row).1.anotherSigwinch = false
-        rw [hf.2, ha]; simp [hn]
-      · simp only [List.nil_append, List.head_cons]
+      refine ⟨[], rd, rfl, by simp, rfl, fun ret hr => (by cases hr), fun e' he => ?_⟩
+      cases he
+      exact ⟨ho, fun _ => ⟨rfl, rfl⟩⟩
+    | row r =>
+      rw [diffLoop_cons_row acc win rd rds r ho] at h
+      simp only [] at h
+      generalize hw : ({ win with inDiff := true, anotherSigwinch := decide (rd.nested > 0) } : CAWin) = w1 at h
+      have hc := C18_conserve w1 r
+      have hf := diffOnce_flags w1 r
+      have ht : w1.top = win.top := by rw [← hw]
+      have hl : w1.lastCursorRow = win.lastCursorRow := by rw [← hw]
+      have ha : w1.anotherSigwinch = decide (rd.nested > 0) := by rw [← hw]
+      have hrd : rd.rowD = r := by simp [Round.rowD, ho]
+      have hcons : (diffOnce w1 r).1.top - win.top + (diffOnce w1 r).2 = r - win.lastCursorRow.getD r := by
         rw [hl] at hc
-        show (diffOnce w1 rd.row).1.top - win.top + (acc + (diffOnce w1 rd.row).2 - acc) = _
         cases hwl : win.lastCursorRow with
         | none => rw [hwl] at hc; simp only [Option.getD_none]; have := hc.2; omega
         | some last => rw [hwl] at hc; simp only [Option.getD_some]; have := hc.2; omega
+      by_cases hn : rd.nested > 0
+      · have hb : (!(diffOnce w1 r).1.anotherSigwinch) = false := by rw [hf.2, ha]; simp [hn]
+        simp only [hb] at h
+        obtain ⟨used, final, e1, e2, e3, e4, e5⟩ := ih _ _ h
+        refine ⟨rd :: used, final, by rw [e1]; rfl, ?_, e3, ?_, ?_⟩
+        · intro x hx
+          rcases List.mem_cons.mp hx with hx | hx
+          · subst hx; exact ⟨hn, r, ho⟩
+          · exact e2 x hx
+        · intro ret hret
+          obtain ⟨f1, f2, f3, f4, f5⟩ := e4 ret hret
+          refine ⟨f1, f2, f3, f4, ?_⟩
+          simp only [hc.1, Option.getD_some] at f5
+          simp only [List.cons_append, List.head_cons, hrd]
+          cases hwl : win.lastCursorRow with
+          | none => rw [hwl] at hcons; simp only [Option.getD_none] at hcons ⊢; omega
+          | some last => rw [hwl] at hcons; simp only [Option.getD_some] at hcons ⊢; omega
+        · intro e he
+          exact ⟨(e5 e he).1, fun hu => by cases hu⟩
+      · have hb : (!(diffOnce w1 r).1.anotherSigwinch) = true := by rw [hf.2, ha]; simp [hn]
+        simp only [hb, if_true, Option.some.injEq, Prod.mk.injEq] at h
+        obtain ⟨e1, e2, e3⟩ := h
+        subst e1 e2 e3
+        refine ⟨[], rd, rfl, by simp, rfl, fun ret hret => ?_, fun e he => (by cases he)⟩
+        cases hret
+        refine ⟨by omega, ⟨r, ho⟩, ?_, ?_, ?_⟩
+        · show (diffOnce w1 r).1.anotherSigwinch = false
+          rw [hf.2, ha]; simp [hn]
+        · show (diffOnce w1 r).1.lastCursorRow = some rd.rowD
+          rw [hrd]; exact hc.1
+        · simp only [List.nil_append, List.head_cons, hrd]
+          show (diffOnce w1 r).1.top - win.top + (acc + (diffOnce w1 r).2 - acc) = _
+          omega
 
-/-- `get_cursor_vertical_diff` (not itself nested) over any script of queries, each disturbed by any number of nested
-    calls: it consumes the queries up to and including the first undisturbed one (`used ++ [final]`), ends with both
-    flags clear and `_last_cursor_row` = the last reported row, and
-    (change of top_usable_row) + returned = last reported row - previously known row
+/-- `get_cursor_vertical_diff` (not itself nested) returning normally, over any script of queries, each disturbed by
+    any number of nested calls: it consumes the queries up to and including the first undisturbed one
+    (`used ++ [final]`, all of which reported a row), ends with both flags clear and `_last_cursor_row` = the last
+    reported row, and (change of top_usable_row) + returned = last reported row - previously known row
     (the first reported row when none was known: nothing to account for before it). -/
 theorem C18_nested (win : CAWin) (rounds : List Round) (win' : CAWin) (ret : Int) (rest : List Round)
-    (hin : win.inDiff = false) (h : cursorVerticalDiff win rounds = some (win', ret, rest)) :
-    ∃ used : List Round, ∃ final : Round, rounds = used ++ final :: rest ∧ (∀ rd ∈ used, rd.nested > 0) ∧
-      final.nested = 0 ∧ win'.inDiff = false ∧ win'.anotherSigwinch = false ∧ win'.lastCursorRow = some final.row ∧
+    (hin : win.inDiff = false) (h : cursorVerticalDiff win rounds = some (win', .ok ret, rest)) :
+    ∃ used : List Round, ∃ final : Round, rounds = used ++ final :: rest ∧
+      (∀ rd ∈ used, rd.nested > 0 ∧ ∃ r, rd.outcome = .row r) ∧
+      final.nested = 0 ∧ (∃ r, final.outcome = .row r) ∧
+      win'.inDiff = false ∧ win'.anotherSigwinch = false ∧ win'.lastCursorRow = some final.rowD ∧
       (win'.top - win.top) + ret =
-        final.row - win.lastCursorRow.getD ((used ++ [final]).head (by simp)).row := by
+        final.rowD - win.lastCursorRow.getD ((used ++ [final]).head (by simp)).rowD := by
   simp only [cursorVerticalDiff, hin] at h
-  obtain ⟨used, final, h1, h2, h3, h4, h5, h6, h7⟩ := diffLoop_spec 0 win rounds win' ret rest (by simpa using h)
-  exact ⟨used, final, h1, h2, h3, h4, h5, h6, by simpa using h7⟩
+  obtain ⟨used, final, h1, h2, h3, hok, _⟩ := diffLoop_spec 0 win rounds win' (.ok ret) rest (by simpa using h)
+  obtain ⟨h4, h5, h6, h7, h8⟩ := hok ret rfl
+  exact ⟨used, final, h1, h2, h4, h5, h3, h6, h7, by simpa using h8⟩
 
-/-- it blocks (waits for another report) exactly when every scripted query was disturbed -/
+/-- The failure path (`try/finally`, fix 2c90190): when a query raises — input ahead of the report with no callback,
+    or a read returning '' — the exception propagates, but `in_get_cursor_diff` is clear again; the failing round
+    changed nothing else, and when it was the first round the window is exactly as before (apart from the
+    `another_sigwinch` flag, which the next call resets). -/
+theorem C18_error_recovers (win : CAWin) (rounds : List Round) (win' : CAWin) (e : PyErr) (rest : List Round)
+    (hin : win.inDiff = false) (h : cursorVerticalDiff win rounds = some (win', .error e, rest)) :
+    win'.inDiff = false ∧
+    ∃ used : List Round, ∃ final : Round, rounds = used ++ final :: rest ∧
+      (∀ rd ∈ used, rd.nested > 0 ∧ ∃ r, rd.outcome = .row r) ∧ final.outcome = .raises e ∧
+      (used = [] → win'.top = win.top ∧ win'.lastCursorRow = win.lastCursorRow) := by
+  simp only [cursorVerticalDiff, hin] at h
+  obtain ⟨used, final, h1, h2, h3, _, herr⟩ := diffLoop_spec 0 win rounds win' (.error e) rest (by simpa using h)
+  exact ⟨h3, used, final, h1, h2, (herr e rfl).1, (herr e rfl).2⟩
+
+/-- ... so the next call is an ordinary one: it is not mistaken for a nested call (it does query the terminal) and it
+    accounts for the movement since the last row the window knew.  (Before the fix the flag stayed set and every later
+    call returned 0 without querying: `C18_nested_zero`.) -/
+theorem C18_error_then_ok (win : CAWin) (rounds : List Round) (win' : CAWin) (e : PyErr) (rest : List Round)
+    (hin : win.inDiff = false) (h : cursorVerticalDiff win rounds = some (win', .error e, rest))
+    (rounds2 : List Round) (win'' : CAWin) (ret : Int) (rest2 : List Round)
+    (h2 : cursorVerticalDiff win' rounds2 = some (win'', .ok ret, rest2)) :
+    ∃ used : List Round, ∃ final : Round, rounds2 = used ++ final :: rest2 ∧ final.nested = 0 ∧
+      win''.inDiff = false ∧ win''.lastCursorRow = some final.rowD ∧
+      (win''.top - win'.top) + ret =
+        final.rowD - win'.lastCursorRow.getD ((used ++ [final]).head (by simp)).rowD := by
+  obtain ⟨used, final, a1, _, a3, _, a5, _, a7, a8⟩ :=
+    C18_nested win' rounds2 win'' ret rest2 (C18_error_recovers win rounds win' e rest hin h).1 h2
+  exact ⟨used, final, a1, a3, a5, a7, a8⟩
+
+/-- it blocks (waits for another report) exactly when every scripted query reported a row and was disturbed -/
 theorem C18_nested_blocks (win : CAWin) (rounds : List Round) (hin : win.inDiff = false)
-    (hall : ∀ rd ∈ rounds, rd.nested > 0) : cursorVerticalDiff win rounds = none := by
+    (hall : ∀ rd ∈ rounds, rd.nested > 0 ∧ ∃ r, rd.outcome = .row r) : cursorVerticalDiff win rounds = none := by
   simp only [cursorVerticalDiff, hin]
   have : ∀ acc w, diffLoop acc w rounds = none := by
     induction rounds with
     | nil => intro acc w; rfl
     | cons rd rds ih =>
       intro acc w
-      unfold diffLoop
-      simp only [nestedCalls_eq, Bool.false_or]
-      have hn := hall rd List.mem_cons_self
-      have hf := diffOnce_flags ({ w with inDiff := true, anotherSigwinch := decide (rd.nested > 0) } : CAWin) rd.row
-      have hb : (!(diffOnce ({ w with inDiff := true, anotherSigwinch := decide (rd.nested > 0) } : CAWin) rd.row).1.anotherSigwinch) = false := by
+      obtain ⟨hn, r, ho⟩ := hall rd List.mem_cons_self
+      rw [diffLoop_cons_row acc w rd rds r ho]
+      simp only []
+      have hf := diffOnce_flags ({ w with inDiff := true, anotherSigwinch := decide (rd.nested > 0) } : CAWin) r
+      have hb : (!(diffOnce ({ w with inDiff := true, anotherSigwinch := decide (rd.nested > 0) } : CAWin) r).1.anotherSigwinch) = false := by
         rw [hf.2]; simp [hn]
       simp only [hb]
       exact ih (fun x hx => hall x (List.mem_cons_of_mem _ hx)) _ _
   simpa using this 0 win
 
 /-- non-vacuity: two disturbed queries, then an undisturbed one; the cursor went from row 5 to row 9 -/
-example : (cursorVerticalDiff { top := 3, lastCursorRow := some 5 } [⟨7, 2⟩, ⟨4, 1⟩, ⟨9, 0⟩, ⟨1, 0⟩]).map
-    (fun (w, r, rest) => (w.top, r, rest.length)) = some (7, 0, 1) := by decide
+example : (cursorVerticalDiff { top := 3, lastCursorRow := some 5 }
+      [⟨.row 7, 2⟩, ⟨.row 4, 1⟩, ⟨.row 9, 0⟩, ⟨.row 1, 0⟩]).map
+    (fun (w, r, rest) => (w.top, (match r with | .ok x => some x | .error _ => none), rest.length)) = some (7, some 0, 1) := by
+  decide
+
+/-- non-vacuity of the failure path: a disturbed query, then a failing one; the flag is clear afterwards -/
+example : (cursorVerticalDiff { top := 3, lastCursorRow := some 5 }
+      [⟨.row 7, 1⟩, ⟨.raises .valueError, 0⟩, ⟨.row 9, 0⟩]).map
+    (fun (w, r, rest) => (w.top, w.inDiff, (match r with | .ok _ => true | .error _ => false), rest.length)) =
+    some (5, false, false, 1) := by
+  decide
 
 end Curtsies
